@@ -4,22 +4,35 @@ package event
 
 // HarnessEventSet: k listeners subscribe; then a symbolic sequence of {unsubscribe i, fire}.
 func HarnessEventSet() {
-	k := vParam("listeners", 3)
+	initial := vParam("listeners", 3)
+	k := initial + vParam("late", 1) // listeners that subscribe later, after some have left
 	steps := vParam("steps", 4)
 	e := New[int]()
 	calls := make([]int, k)   // number of notifications received
 	last := make([]int, k)    // last value received
 	subscribed := make([]bool, k)
 	unsubs := make([]Unsubscribe, k)
-	for i := 0; i < k; i++ {
-		i := i
+	ever := make([]bool, k)
+	join := func(i int) {
 		unsubs[i] = e.Subscribe(func(v int) { calls[i]++; last[i] = v })
 		subscribed[i] = true
+		ever[i] = true
+	}
+	for i := 0; i < initial; i++ {
+		join(i)
 	}
 	fired := 0
 	for s := 0; s < steps; s++ {
 		op := symChoice(k + 1)
 		if op < k {
+			if !ever[op] {
+				if op != initial && !ever[op-1] {
+					continue // late listeners join in order (symmetry)
+				}
+				join(op) // a new component starts while others are running or gone
+				vReach("late-subscribe")
+				continue
+			}
 			if !subscribed[op] {
 				continue // each listener shuts down at most once
 			}
